@@ -27,7 +27,7 @@ CASE_LIMIT = {"quick": 200, "thorough": 400}
 
 PROFILE = {"methods": ["SS", "MS", "DC"], "intgs": ["rk", "expl_euler"], "alg": 0.3,
            "grids": ["uniform", "geometric", "function"], "t0_kinds": ["num", "free"], "T_kinds": ["num", "free"],
-           "N": [1, 2, 3, 4], "M": [1, 2, 3], "degrees": [1, 2, 3, 4, 5], "allow_matrix": False, "quad_states": 0.0,
+           "N": [1, 2, 3, 4], "M": [1, 2, 3], "degrees": [1, 2, 3, 4, 5], "allow_matrix": False, "quad_states": 0.3,
            "max_states": 2}
 
 
@@ -164,6 +164,14 @@ def run_case(case):
             for g, kw in (("control", {}), ("integrator", {}), ("integrator", {"refine": r})):
                 outs_pw.append(ca.MX(C.call("sample:%s%s" % (g, kw), st.sample, b.syms[s_["name"]], grid=g, **kw)[1]))
         F_pw = ca.Function("spw", [obs.view.x, obs.view.p], outs_pw) if outs_pw else None
+        # quadrature states under shooting: the refined values lie on the scheme's polynomial as well
+        qst = [s_ for s_ in spec["states"] if s_.get("quad")] if cls in ("MS", "SS") and m.get("intg") in ("rk", "expl_euler") else []
+        outs_q = []
+        for s_ in qst:
+            for g, kw in (("control", {}), ("integrator", {}), ("integrator", {"refine": 7})):
+                tt, vv = C.call("sample(quad):%s%s" % (g, kw), st.sample, b.syms[s_["name"]], grid=g, **kw)
+                outs_q += [ca.MX(tt), ca.MX(vv)]
+        F_q = ca.Function("sq", [obs.view.x, obs.view.p], outs_q) if outs_q else None
         samp = C.call("sampler", st.sampler, [sym for _, sym, _ in targets])
     except C.RockitRaised as e:
         res["violations"].append(C.exc_violation(ID, e, "|".join(sig.split("|")[:2])))
@@ -204,6 +212,39 @@ def run_case(case):
                                                                     v_i.shape[0], v_r.shape[0], d1 if ok else -1,
                                                                     d2 if ok else -1)})
                 return res
+    if F_q is not None:
+        vq = [np.array(v_, dtype=float) for v_ in F_q(w, obs.view.p0)]
+        degq = 1 if m.get("intg") == "expl_euler" else 4
+        for j, s_ in enumerate(qst):
+            t_c, v_c, t_i, v_i, t_7, v_7 = [a_.reshape(-1) for a_ in vq[6 * j:6 * j + 6]]
+            if not (np.all(np.isfinite(v_7)) and np.max(np.abs(v_7)) < 1e5):
+                continue
+            scq = 1 + float(np.max(np.abs(v_7)))
+            res["evals"] += 2
+            ok = len(t_7) == N * M * 7 + 1 and len(t_i) == N * M + 1 and len(t_c) == N + 1
+            if not ok or max(np.max(np.abs(v_7[::7] - v_i)), np.max(np.abs(v_i[::M] - v_c))) > 1e-9 * scq:
+                res["violations"].append({"kind": "nesting", "mech": "C08|grids-do-not-nest|quadrature-state",
+                                          "detail": "%s: refined / integrator / control samples do not nest (lengths %d/%d/%d)" % (
+                                              s_["name"], len(t_7), len(t_i), len(t_c))})
+                return res
+            for idx in range(N * M):
+                tt = t_7[7 * idx:7 * idx + 7] - t_7[7 * idx]
+                hh = t_7[7 * idx + 7] - t_7[7 * idx]
+                if not hh > 1e-9:
+                    continue
+                co = np.polyfit(tt / hh, v_7[7 * idx:7 * idx + 7], degq)
+                fit = float(np.max(np.abs(np.polyval(co, tt / hh) - v_7[7 * idx:7 * idx + 7])))
+                end = float(np.polyval(co, 1.0))
+                res["evals"] += 1
+                res["counters"]["steps_fitted"] += 1
+                if fit > 1e-8 * scq or abs(end - v_7[7 * idx + 7]) > 1e-7 * scq:
+                    res["violations"].append({
+                        "kind": "quad-step", "mech": "C08|quadrature-step-polynomial",
+                        "detail": "%s, integrator step %d: the 7 refined samples %s a degree-%d polynomial (residual %.3g); its "
+                                  "value at the end of the step is %.9g, the next integrator sample %.9g" % (
+                                      s_["name"], idx, "lie on" if fit <= 1e-8 * scq else "do not lie on", degq, fit, end,
+                                      v_7[7 * idx + 7])})
+                    return res
     ph = obs.rb(w)
     ref = model.RefModel(spec, ph)
     tc = ph["tc"]
